@@ -7,6 +7,7 @@ import (
 	"strings"
 
 	"pvharness/cmd/c01/pgen"
+	"pvharness/cmd/c01/punit"
 	"pvharness/cmd/c02/srctab"
 	"pvharness/lib"
 )
@@ -28,6 +29,9 @@ func main() {
 	r.Register("d", func(a []string) string { return pgen.Run(a).C02 })
 	// table KIND -> the classification table extracted from layer_frame.go (tables.go); "unrecognised" is never
 	// recorded as a case: the check then rests on the generated frames only and says so in a stat.
+	// pp FAM MS tok..: Parse with a ping pending on the process-global waiter table (cmd/c01/punit): the C02 projection
+	// of every frame must be the model's, whatever the waiter table holds
+	r.Register("pp", func(a []string) string { o, _ := punit.RunPing(a, true); return o })
 	r.Register("table", func(a []string) string {
 		tabs, _ := srctab.SourceTables()
 		if txt, ok := tabs[a[0]]; ok {
@@ -77,4 +81,6 @@ func main() {
 			r.Stat("obs.ok.id"+strings.Fields(obs)[1], 1)
 		}
 	})
+	// last: a failure here can leave the process-global waiter table locked
+	punit.Unit(r, true)
 }
